@@ -670,3 +670,8 @@ package ledger
 //@ func (l ILedger) IterateReadAllItems(cb)
 //@   modifies everything
 //@   preserves allmaps(memItems.gotItems), allmaps(memItems.updatedItems), memItems.*, allelems(memItems.removedKeys), FinalityLedger.*, SimpleLedger.*, MemLedger.*, StakeCtrler.*, GovCtrler.*, AcctCtrler.*, GovParams.*, cons_ok, deadobj, immuheight
+
+// ---- effect clauses (C01): map ranges on the consensus path, each with the obligation that makes its
+// iteration order unobservable
+//@ effect (*FinalityLedger).Commit maprange#0: the loop only collects the keys; they are sorted (LedgerKeyList) before any tree write, and the writes are a function of the sorted list (Commit post-conditions and loop invariants, C18)
+//@ effect (*memItems).refresh maprange#0: map-to-map copy over distinct keys; the post-condition is stated over the maps, so it holds for every iteration order (visited-set invariant, C18)
